@@ -308,8 +308,13 @@ const XMLCh * DOMCharacterDataImpl::substringData(const DOMNode *node, XMLSize_t
     else
         newString = temp;
 
-    XMLString::copyNString(newString, fDataBuf->getRawBuffer()+offset, count);
-    newString[count] = chNull;
+    // the count may exceed what is left after offset: the substring then
+    // extends to the end of the data
+    XMLSize_t available = len - offset;
+    XMLSize_t toCopy = (count > available) ? available : count;
+
+    XMLString::copyNString(newString, fDataBuf->getRawBuffer()+offset, toCopy);
+    newString[toCopy] = chNull;
 
     const XMLCh* retString = doc->getPooledString(newString);
 
